@@ -18,8 +18,14 @@ class Unknown(Exception):
     pass
 
 
+_V_ARG = [None]   # when the rounding code lives in a helper: index of the argument that carries the parsed float
+
+
 def is_v(e):
-    """e is the parsed float itself: Continue-payload of `?` applied to lexical_core::parse::<F>(..)"""
+    """e is the parsed float itself: Continue-payload of `?` applied to lexical_core::parse::<F>(..) - or, when the
+    rounding code was moved into a helper function, that helper's float argument"""
+    if _V_ARG[0] is not None:
+        return e[0] == "arg" and e[1] == _V_ARG[0]
     if e[0] == "field" and e[1][0] == "downcast" and e[1][2] == "Continue":
         inner = e[1][1]
         if inner[0] == "call" and inner[1].endswith("Try::branch") and inner[3] and inner[3][0][0] == "call" and inner[3][0][1].startswith("lexical_core::parse"):
@@ -270,6 +276,27 @@ def run(R, tier):
         okp = p >= bits or (bits == 64 and fmt == "f64")
         R.check(okp, "R07.5", "%s:intermediate" % ity, "%s (p=%d) for a %d-bit target" % (fmt, p, bits), "%s is converted through %s whose %d-bit mantissa cannot hold every %d-bit value: literals above 2^%d that are not written as plain integers are mis-rounded" % (ity, fmt, p, bits, p), where=cl.span)
         R.check(pcall.name == "lexical_core::parse", "R07.1", "%s:fallback-parser" % ity, "complete parser on the literal", "fallback must parse the complete literal (lexical_core::parse), uses %s" % pcall.name, where=cl.span)
+        # the rounding code: the fallback closure itself, or a helper it hands the parsed float to
+        _V_ARG[0] = None
+        closure_body = cl
+        has_cast = any(st["k"] == "assign" and st["rv"]["k"] == "cast" and st["rv"]["kind"] == "FloatToInt" for bi in cl.mir.live_blocks() for st in cl.mir.blocks[bi]["stmts"])
+        if not has_cast:
+            Sc = sym.Sym(cl.mir)
+            for call in cl.calls():
+                dk = call.callee.get("resolved_dpath") or call.callee.get("dpath")
+                hb = next((x for x in u.bodies if x.kind in ("Fn", "AssocFn") and (x.npath == call.rname or (dk and x.dpath == dk))), None)
+                if hb is None:
+                    continue
+                for i, a in enumerate(call.args):
+                    if is_v(sym.norm(Sc.operand(a))):
+                        # the helper's result must be the closure's result (tail position)
+                        rets = [sym.norm(Sc.local(0))] + [sym.norm(d_) for d_ in Sc.defs_of(0)]
+                        if any(ret[0] == "call" and ret[2] == call.rname and ret[4] == call.bi for ret in rets):
+                            cl = hb
+                            _V_ARG[0] = i + 1
+                        break
+                if _V_ARG[0] is not None:
+                    break
         S = sym.Sym(cl.mir)
         evr = Ev(fmt, ity)
         # ---- R07.1 shape: casts and rounding idiom
@@ -403,7 +430,7 @@ def run(R, tier):
         # fallback closure on each lexical error variant
         emap = {}
         for d, vn in sorted(lex_tab.items()):
-            rr = eng.run(cl, [AggV("closure-env", {0: SymV("lit", "literal")}), EnumV(LEX_ERR, vn, d, {0: SymV("pos", "pos")})])
+            rr = eng.run(closure_body, [AggV("closure-env", {0: SymV("lit", "literal")}), EnumV(LEX_ERR, vn, d, {0: SymV("pos", "pos")})])
             entered = any(e.kind == "call" and e.name.startswith("lexical_core::parse") for r in rr for e in r.trace)
             if vn == "InvalidDigit":
                 if not entered:
